@@ -143,3 +143,119 @@ func init() {
 		},
 	}...)
 }
+
+func init() {
+	bbIgnore := []string{`^(defer )?bb\.mu\.(R)?(L|Unl)ock\(\)$`, `^bb\.logger\.`, `^logger\.Println`}
+	trSpecs = append(trSpecs, []trSpec{
+		{
+			Name: "sim_bb_run_body", Props: []string{"C19"},
+			File: "tools/simulator/simulate/chain/broadcaster.go", Func: "BlockBroadcaster.run", Loop: 1,
+			Atoms:   []atom{{"<-timer.C", "tick", "bool"}, {"bb.nextBlock.Cmp(bb.limit)", "cmp_limit", "Z"}},
+			Actions: map[string]int{
+				"bb.nextBlock = new(big.Int).Add(bb.nextBlock, big.NewInt(1))": 1, "bb.done <- struct{}{}": 2, "bb.broadcast()": 3,
+				"timer.Reset(bb.cadenceWithJitter())": 4, "timer.Stop()": 5,
+			},
+			Ignore: bbIgnore,
+		},
+		{
+			Name: "sim_bb_run", Props: []string{"C19"},
+			File: "tools/simulator/simulate/chain/broadcaster.go", Func: "BlockBroadcaster.run",
+			Binders: map[string]map[string]string{"timer := time.NewTimer(bb.cadenceWithJitter())": {}},
+			Actions: map[string]int{"bb.broadcast()": 1, "for { }": 2},
+			Ignore:  bbIgnore,
+		},
+		{
+			Name: "sim_bb_broadcast", Props: []string{"C19"},
+			File: "tools/simulator/simulate/chain/broadcaster.go", Func: "BlockBroadcaster.broadcast",
+			Atoms: []atom{{"bb.progress != nil", "has_progress", "bool"}},
+			Binders: map[string]map[string]string{
+				"msg := Block{ Number: new(big.Int).Set(bb.nextBlock), }": {}, "var bts bytes.Buffer": {},
+			},
+			Actions: map[string]int{
+				"for _, loader := range bb.loaders { }": 1, "msg.Hash = sha256.Sum256(bts.Bytes())": 2,
+				"bb.progress.Increment(progressTelemetryNamespace, 1)": 3, "for sub, chSub := range bb.subscriptions { }": 4,
+			},
+			Ignore: bbIgnore,
+		},
+		{
+			Name: "sim_bb_loaders_body", Props: []string{"C19", "C20"},
+			File: "tools/simulator/simulate/chain/broadcaster.go", Func: "BlockBroadcaster.broadcast", Loop: 1,
+			Actions: map[string]int{"loader(&msg)": 1},
+		},
+		{
+			Name: "sim_bb_subs_body", Props: []string{"C19"},
+			File: "tools/simulator/simulate/chain/broadcaster.go", Func: "BlockBroadcaster.broadcast", Loop: 2,
+			Actions: map[string]int{"go func(subID int, ch chan Block, delay bool, logger *log.Logger) {...": 1},
+		},
+		{
+			Name: "sim_bb_deliver", Props: []string{"C19"},
+			File: "tools/simulator/simulate/chain/broadcaster.go", Func: "BlockBroadcaster.broadcast", Lit: 1,
+			Atoms:   []atom{{"delay", "delayed", "bool"}, {"bb.maxDelay", "max_delay", "Z"}},
+			Binders: map[string]map[string]string{"r := rand.Intn(bb.maxDelay)": {}},
+			Actions: map[string]int{"<-time.After(time.Duration(int64(r)) * time.Millisecond)": 1, "ch <- msg": 2},
+			Ignore:  []string{`^defer func\(\)`},
+		},
+		{
+			Name: "sim_bb_unsubscribe", Props: []string{"C19"},
+			File: "tools/simulator/simulate/chain/broadcaster.go", Func: "BlockBroadcaster.unsubscribe",
+			Atoms:   []atom{{"ok", "known", "bool"}, {"closeChan", "close_chan", "bool"}},
+			Binders: map[string]map[string]string{"sub, ok := bb.subscriptions[subscriptionId]": {}},
+			Actions: map[string]int{"bb.activeSubs--": 1, "close(sub)": 2, "delete(bb.subscriptions, subscriptionId)": 3, "delete(bb.delays, subscriptionId)": 4},
+			Ignore:  bbIgnore,
+		},
+	}...)
+}
+
+func init() {
+	clIgnore := []string{`^(defer )?cl\.mu\.(R)?(L|Unl)ock\(\)$`, `^cl\.logger\.`}
+	trSpecs = append(trSpecs, []trSpec{
+		{
+			Name: "sim_listener_run_body", Props: []string{"C19"},
+			File: "tools/simulator/simulate/chain/listener.go", Func: "Listener.run", Loop: 1,
+			Atoms:   []atom{{"block := <-chBlocks", "got_block", "bool"}},
+			Actions: map[string]int{
+				"cl.saveBlock(block)": 1,
+				"cl.broadcastTransaction(BlockChannel, ChainEvent{ BlockNumber: block.Number, BlockHash: block.Hash, Event: block, })": 2,
+				"for _, transaction := range block.Transactions { }": 3,
+			},
+			Ignore: clIgnore,
+		},
+		{
+			Name: "sim_listener_tx_body", Props: []string{"C19"},
+			File: "tools/simulator/simulate/chain/listener.go", Func: "Listener.run", Loop: 2,
+			Atoms: []atom{
+				{"type Log", "is_log", "bool"}, {"type OCR3ConfigTransaction", "is_config", "bool"},
+				{"type PerformUpkeepTransaction", "is_perform", "bool"}, {"type UpkeepCreatedTransaction", "is_create", "bool"},
+			},
+			Binders: map[string]map[string]string{
+				"var channelName EventChannel": {},
+				"evt := ChainEvent{ BlockNumber: block.Number, BlockHash: block.Hash, Event: transaction, }": {},
+			},
+			Actions: map[string]int{
+				"channelName = LogTriggerChannel": 1, "channelName = OCR3ConfigChannel": 2, "channelName = PerformUpkeepChannel": 3,
+				"channelName = CreateUpkeepChannel": 4, "cl.broadcastTransaction(channelName, evt)": 5,
+			},
+			Ignore: clIgnore,
+		},
+		{
+			Name: "sim_listener_broadcast", Props: []string{"C19"},
+			File: "tools/simulator/simulate/chain/listener.go", Func: "Listener.broadcastTransaction",
+			Atoms:   []atom{{"ok", "has_subs", "bool"}},
+			Binders: map[string]map[string]string{"subs, ok := cl.subscriptions[channel]": {}},
+			Actions: map[string]int{"for i := range subs { }": 1},
+			Ignore:  clIgnore,
+		},
+		{
+			Name: "sim_listener_broadcast_body", Props: []string{"C19"},
+			File: "tools/simulator/simulate/chain/listener.go", Func: "Listener.broadcastTransaction", Loop: 1,
+			Actions: map[string]int{"go func(chSub chan ChainEvent) { chSub <- event }(subs[i])": 1},
+		},
+		{
+			Name: "sim_listener_subscribe_body", Props: []string{"C19"},
+			File: "tools/simulator/simulate/chain/listener.go", Func: "Listener.Subscribe", Loop: 1,
+			Atoms:   []atom{{"ok", "has_subs", "bool"}},
+			Binders: map[string]map[string]string{"subs, ok := cl.subscriptions[channel]": {}},
+			Actions: map[string]int{"subs = []chan ChainEvent{}": 1, "cl.subscriptions[channel] = append(subs, chNew)": 2},
+		},
+	}...)
+}
